@@ -360,6 +360,15 @@ def ch_e2e(ctx) -> Channel:
         ch.nontrivial.add((f.manifest, f.now, f.rep_id, f.value))
         if mo is not None:
             pred = 404 if mo == "404" else 200 if mo.startswith("ok") else mo
+            if pred == 200:
+                # the handler decided to serve; an in-band event whose id needs more than 32 bits is then refused
+                # while the emsg box is built (ledger: D13j seen from C01) – predicted exactly, so that any other
+                # 400 remains a disagreement
+                _, mod_, origin_, _num = mo.split()
+                stored_ = t.stored_tfdt[int(mod_) - 1] if t.has_tfdt else sum(t.durs[:int(mod_) - 1])
+                if segchecks.event_id_overflow(f.manifest, f.mode, f.value, f.adv_d, t,
+                                               tfdt=stored_ + int(origin_), dur=t.durs[int(mod_) - 1]):
+                    pred = 400
             if pred != f.status:
                 ch.disagreements.append({"fetch": f.json(), "line": line, "model": mo, "impl_status": f.status})
         if f.end_le_now and f.status != 200:
